@@ -217,8 +217,25 @@ pub fn par_items<T: Sync>(
                         break;
                     }
                     watch.begin(w, i);
-                    f(&items[i], &mut st);
+                    let r = std::panic::catch_unwind(std::panic::AssertUnwindSafe(|| f(&items[i], &mut st)));
                     watch.end(w);
+                    if r.is_err() {
+                        // a panic outside a guarded call. Raised inside the library (a call the
+                        // harness makes unguarded because it cannot fail - reading the byte after a
+                        // decoded value, say): the property's observation could not be made, which
+                        // is a violation of whichever property asked for it. Raised in the harness
+                        // itself: a machinery failure, never a verdict.
+                        let msg = crate::err::take_last_panic().unwrap_or_else(|| "<unknown>".into());
+                        let loc = msg.rsplit(" @ ").next().unwrap_or("").to_string();
+                        let prop = CURRENT.lock().unwrap().0.clone();
+                        if loc.starts_with("/repo/") {
+                            let site = loc.trim_start_matches("/repo/").to_string();
+                            st.violate(format!("{prop} the library panics in a call made while checking the result at={site}"), String::new(), serde_json::json!({"panic": msg, "work_item": i}));
+                        } else {
+                            eprintln!("MACHINERY: a harness worker panicked: {msg}");
+                            hard_exit(2);
+                        }
+                    }
                 }
                 results.lock().unwrap().push(st);
             }));
